@@ -203,6 +203,22 @@ class Src {
     }
   }
 
+  // raw byte string: in BYTES mode all remaining fuzzer bytes (up to maxlen); every byte is
+  // recorded as a draw so that the case replays and shrinks like any other
+  std::string take_bytes(size_t maxlen) {
+    size_t len;
+    if (mode_ == BYTES) {
+      size_t remaining = pos_ < nbytes_ ? nbytes_ - pos_ : 0;
+      len = remaining < maxlen ? remaining : maxlen;
+      push(maxlen + 1, len);
+    } else {
+      len = (size_t)below(maxlen + 1);
+    }
+    std::string out;
+    for (size_t i = 0; i < len; i++) out += (char)below(256);
+    return out;
+  }
+
   const Record* record() const { return rec_; }
   std::vector<Draw> draws() const {
     std::vector<Draw> d;
